@@ -1346,6 +1346,13 @@ def corpus() -> list[list[tuple]]:
     hs.append([("fs", 0, stateful, []), ("r", ("own", 0), arr, None, None, False),
                ("r", ("own", 0), arr, None, None, True), ("r", ("own", 0), arr, None, None, False)])
     hs.append([("qr", stateful, arr, None, None, False), ("qr", stateful, arr, None, None, True)])
+    # macros share their registry with the macro bodies (/repo 6700b3b): a macro calls another macro,
+    # defines one, and itself (bounded by the context depth limit); nothing of it survives the render
+    mac = [("M", "n", [("T", "n"), ("E", "a"), ("I", "c")]), ("M", "m", [("T", "("), ("Call", "n", ("V", "a")), ("M", "k", [("T", "k")]), ("T", ")")]),
+           ("Call", "k", ("L", "0")), ("Call", "m", ("L", "x")), ("Call", "k", ("L", "1")), ("I", "c")]
+    rec = [("T", "s"), ("M", "m", [("T", "r"), ("Call", "m", ("L", "y"))]), ("Call", "m", ("L", "x")), ("T", "e")]
+    hs.append([("fs", 0, mac, []), ("fs", 0, rec, []), ("r", ("own", 0), [], None, None, False), ("r", ("own", 1), [], None, None, True),
+               ("r", ("own", 0), [], None, None, True), ("r", ("own", 1), [], None, None, False), ("qr", mac, [], None, None, False)])
     # a failed render (every k) followed by the same render
     for k in (1, 2, 3, 4):
         hs.append([("env", False, False, [], store, []), ("gt", 1, "ch", [], False), ("gt", 1, "ba", [], False),
